@@ -284,6 +284,10 @@ Proof.
   destruct pre'; discriminate.
 Qed.
 
+(* the types that support auto_increment render as integer types *)
+Lemma supports_auto_type_ok : forall ty, supports_auto_increment ty = true -> auto_type_ok (mysql_type_text ty) = true.
+Proof. intros ty H. destruct ty as [st| | | | |]; try discriminate. destruct st; try discriminate; reflexivity. Qed.
+
 Lemma modify_pre_updates : forall s P a t c col,
   modify_target a = Some (t, c) -> lookup_column s t c = Some col ->
   forall pre d, gen s P a = Ok (pre ++ [SModifyColumn t d]) -> forallb (is_update_on t c) pre = true.
@@ -357,6 +361,11 @@ Proof.
     destruct (mem_str c p); cbn [negb orb] in Hpknn; [|apply Bool.andb_false_r].
     apply Bool.negb_true_iff in Hpknn. rewrite Hpknn. reflexivity. }
   rewrite M9.
+  assert (M9c : auto_spec_ok d = true).
+  { unfold auto_spec_ok. rewrite Hda, Hty. destruct (is_auto_col s t c); [|reflexivity]. cbn [andb].
+    destruct (supports_auto_increment (c_type (after_col a col))) eqn:Es; [|reflexivity].
+    rewrite (supports_auto_type_ok _ Es). reflexivity. }
+  rewrite M9c. cbn [negb].
   (* the engine's table is the believed table of the new schema *)
   assert (Hm : mk_mcol (t_constraints td) (g col) = mcol_of_def d).
   { rewrite Hgc. unfold mk_mcol, mcol_of_def. rewrite Hname, Hty, Hnn, Hdf, Hda.
@@ -472,6 +481,7 @@ Proof.
   { unfold wf_auto in Hwfa. rewrite forallb_forall in Hwfa. apply Hwfa. exact Hin. }
   assert (Hname : tb_name (catalog_of_table td) = t) by (rewrite tb_name_catalog_of_table; exact Htn).
   cbn [gen]. unfold gen_add_column.
+  assert (Hspec : forall x, auto_spec_ok (sea_coldef x) = true) by reflexivity.
   destruct (negb (c_nullable col) && is_none (c_default col) && is_some fw)%bool eqn:Back.
   - (* nullable first, backfill, MODIFY to NOT NULL *)
     eexists. split; [reflexivity|].
@@ -479,7 +489,7 @@ Proof.
     set (tb1 := mkMTable (tb_name (catalog_of_table td)) (tb_cols (catalog_of_table td) ++ [m0]) (tb_pk (catalog_of_table td))
                          (tb_indexes (catalog_of_table td)) (tb_fks (catalog_of_table td)) (tb_checks (catalog_of_table td))).
     assert (E1 : exec (catalog_of s) (SAddColumn t (sea_coldef (set_nullable true col))) = Ok (replace_tb tb1 t (catalog_of s))).
-    { cbn [exec]. unfold with_tb. rewrite Ftb. cbn [sea_coldef cd_name set_nullable c_name]. fold c. rewrite Hno.
+    { cbn [exec]. unfold with_tb. rewrite Ftb. rewrite Hspec. cbn [negb]. cbn [sea_coldef cd_name set_nullable c_name]. fold c. rewrite Hno.
       fold m0. fold tb1. unfold tb1. rewrite auto_ok_snoc by reflexivity.
       destruct (catalog_of_table td) as [a1 a2 a3 a4 a5 a6] eqn:Etb. cbn [tb_name tb_cols tb_pk tb_indexes tb_fks tb_checks] in *.
       rewrite Hao. reflexivity. }
@@ -497,7 +507,7 @@ Proof.
     { eapply run_updates; [exact F1|exact Hc1|]. unfold upd. destruct (normalize_fill_with fw); [|reflexivity].
       cbn [forallb is_update_on]. rewrite !String.eqb_refl. reflexivity. }
     assert (E3 : exec (replace_tb tb1 t (catalog_of s)) (SModifyColumn t (sea_coldef col)) = Ok (catalog_of s')).
-    { cbn [exec]. unfold with_tb. rewrite F1. cbn [sea_coldef cd_name]. fold c. rewrite Hc1. cbn [negb].
+    { cbn [exec]. unfold with_tb. rewrite F1. rewrite Hspec. cbn [sea_coldef cd_name]. fold c. rewrite Hc1. cbn [negb].
       assert (Hpk1 : tb_pk tb1 = tb_pk (catalog_of_table td)) by reflexivity. rewrite Hpk1.
       assert (Hpkf : match tb_pk (catalog_of_table td) with Some p => mem_str c p | None => false end = false).
       { unfold pk_cols_of_table, constraints_of in Hnpk. rewrite Ft in Hnpk. change (tb_pk (catalog_of_table td)) with (first_pk (t_constraints td)).
@@ -520,7 +530,7 @@ Proof.
     + eapply run_app_ok; [exact E2|]. unfold run. cbn [run_from]. rewrite E3. reflexivity.
   - eexists. split; [reflexivity|].
     assert (E : exec (catalog_of s) (SAddColumn t (sea_coldef col)) = Ok (catalog_of s')).
-    { cbn [exec]. unfold with_tb. rewrite Ftb. cbn [sea_coldef cd_name]. fold c. rewrite Hno.
+    { cbn [exec]. unfold with_tb. rewrite Ftb. rewrite Hspec. cbn [negb]. cbn [sea_coldef cd_name]. fold c. rewrite Hno.
       fold (sea_coldef col). fold m.
       assert (Hao' : auto_ok (catalog_of_table n) = true).
       { rewrite Htd'. rewrite auto_ok_snoc by reflexivity.
